@@ -21,7 +21,7 @@ from .validation import _validate
 from .read import HEADER_SCHEMA, SYNC_SIZE, MAGIC, reader
 from .logical_writers import LOGICAL_WRITERS
 from .schema import extract_record_type, extract_logical_type, parse_schema
-from ._schema_common import default_to_python
+from ._schema_common import default_to_python, inline_references
 from ._write_common import _is_appendable
 from .types import Schema, NamedSchemas
 
@@ -471,15 +471,23 @@ class GenericWriter(ABC):
             self.schema = parse_schema(schema, self._named_schemas)
 
         if isinstance(schema, dict):
-            schema = {
-                key: value
-                for key, value in schema.items()
-                if key not in ("__fastavro_parsed", "__named_schemas")
-            }
+            if "__fastavro_parsed" in schema:
+                # The header has to stand on its own: bring in the definitions
+                # of types that were parsed separately and are only referenced
+                schema = inline_references(schema, self._named_schemas)
+            else:
+                schema = {
+                    key: value
+                    for key, value in schema.items()
+                    if key not in ("__fastavro_parsed", "__named_schemas")
+                }
         elif isinstance(schema, list):
             schemas = []
+            defined = set()
             for s in schema:
-                if isinstance(s, dict):
+                if isinstance(s, dict) and "__fastavro_parsed" in s:
+                    schemas.append(inline_references(s, self._named_schemas, defined))
+                elif isinstance(s, dict):
                     schemas.append(
                         {
                             key: value
